@@ -5,6 +5,12 @@ Correspondence: Lean model (Model/Chunks.lean, family `ck.*`) vs dask_array._cor
 root of `auto_chunks` is an ORACLE of the model: the harness recovers it from the real run (by wrapping the
 module globals `auto_chunks` / `round_to`, no source change) and checks the oracle relation the theorems assume.
 Search: a brute-force validator, independent of the model, on the real `normalize_chunks` over every spec kind.
+  Huge lazy axes (2**53 … 2**62, lengths k*c + r around a chunk edge, mixed with small axes) for every spec kind
+  where the result stays short, through normalize_chunks and through da.zeros/ones/empty/full metadata.
+  Call histories: the same arguments under a sequence of configurations (array.chunk-size / -tolerance) in one
+  process; each result is validated under the configuration in force and must equal the result with the limit
+  passed explicitly.
+Extra failure signatures: config:differs-from-explicit-limit, config:differs-from-fresh-process, api:differs-from-normalize_chunks.
 """
 from __future__ import annotations
 
@@ -205,7 +211,7 @@ def _alarm(*a):
     raise Timeout()
 
 
-def call_normalize(CU, spec, shape, limit, dtype, prev, config):
+def call_normalize(CU, spec, shape, limit, dtype, prev, config, timeout=20.0):
     """Run the real normalize_chunks (under a watchdog). Returns ("ok", out) / ("err", exc) / ("hang", None)."""
     import dask
 
@@ -217,7 +223,7 @@ def call_normalize(CU, spec, shape, limit, dtype, prev, config):
     if prev is not None:
         kw["previous_chunks"] = prev
     old = signal.signal(signal.SIGALRM, _alarm)
-    signal.setitimer(signal.ITIMER_REAL, 20.0)
+    signal.setitimer(signal.ITIMER_REAL, timeout)
     try:
         with dask.config.set(config or {}):
             return "ok", CU.normalize_chunks(spec, shape, **kw)
@@ -271,7 +277,11 @@ def validate(ctx, case, status, out):
     limit, dtype, prev, config = case.get("limit"), case.get("dtype"), dec(case.get("prev")), case.get("config") or {}
     axes = expand(spec, shape)
     if status == "hang":
-        ctx.fail("auto:hang", case, "normalize_chunks did not return within 20 s on a tiny input")
+        if prev is not None and any(n >= 2**50 for n in shape):
+            # seen on the unchanged tree: the reduce loop of auto_chunks flips between two floats forever
+            ctx.fail("auto:hang:huge-previous_chunks", case, "normalize_chunks does not return (auto axis beyond 2**50 elements with previous_chunks)")
+        else:
+            ctx.fail("auto:hang", case, "normalize_chunks did not return within 20 s on a tiny input")
         return "hang"
     if status == "err":
         return "refused"
@@ -336,16 +346,180 @@ def validate(ctx, case, status, out):
     return "ok"
 
 
+def fresh_normalize(items):
+    """Runs in a NEW interpreter (harness.props_ext.fresh_process): each case's call without its history, as the first
+    call with those arguments in the process."""
+    from dask_array import _core_utils as CU
+
+    seen, out = set(), []
+    for case in items:
+        key = repr([case.get(k) for k in ("spec", "shape", "limit", "dtype", "prev")])
+        if key in seen:
+            out.append(None)
+            continue
+        seen.add(key)
+        status, res = call_normalize(CU, dec(case["spec"]), tuple(case["shape"]), case.get("limit"), case.get("dtype"), dec(case.get("prev")), case.get("config"))
+        out.append(repr(res) if status == "ok" else status)
+    return out
+
+
+def compare_with_fresh(ctx, items):
+    """items: [(case with its history, result seen in this process)]"""
+    from harness.props_ext.fresh_process import run_fresh
+
+    if not items:
+        return
+    fresh = run_fresh("C16", "fresh_normalize", [c for c, _ in items])
+    n = 0
+    for (case, out), f in zip(items, fresh):
+        if f is None or f in ("err", "hang"):
+            continue
+        n += 1
+        if repr(out) != f:
+            ctx.fail("config:differs-from-fresh-process", dict(case, fresh_check=True, got=repr(out), want=f),
+                     "normalize_chunks after the same call was made under other configurations differs from what the call gives "
+                     "as the first call of a new interpreter under the same configuration")
+    ctx.notes["histories_compared_with_fresh_interpreter"] = ctx.notes.get("histories_compared_with_fresh_interpreter", 0) + n
+
+
+def call_api(fn, spec, shape, dtype, config):
+    """Chunks of a lazily created array (metadata only: nothing is allocated)."""
+    import dask
+    import dask_array as da
+
+    old = signal.signal(signal.SIGALRM, _alarm)
+    signal.setitimer(signal.ITIMER_REAL, 20.0)
+    try:
+        with dask.config.set(config or {}):
+            f = getattr(da, fn)
+            x = f(shape, 7, chunks=spec, dtype=dtype) if fn == "full" else f(shape, chunks=spec, dtype=dtype)
+            return "ok", x.chunks
+    except Timeout:
+        return "hang", None
+    except Exception as e:
+        return "err", e
+    finally:
+        signal.setitimer(signal.ITIMER_REAL, 0)
+        signal.signal(signal.SIGALRM, old)
+
+
 def run_case(ctx, CU, case):
-    status, out = call_normalize(
-        CU, dec(case["spec"]), tuple(case["shape"]), case.get("limit"), case.get("dtype"), dec(case.get("prev")), case.get("config")
-    )
+    """case["history"]: configurations under which the SAME call is made first (results discarded) — the call under
+    case["config"] must not depend on them.  case["via"]: None (normalize_chunks) or a creation function name."""
+    spec, shape, prev = dec(case["spec"]), tuple(case["shape"]), dec(case.get("prev"))
+    for cfg in case.get("history") or []:
+        call_normalize(CU, spec, shape, case.get("limit"), case.get("dtype"), prev, cfg)
+    via = case.get("via")
+    if via:
+        status, out = call_api(via, spec, shape, case.get("dtype"), case.get("config"))
+        st2, out2 = call_normalize(CU, spec, shape, None, case.get("dtype"), None, case.get("config"))
+        if status == "ok" and st2 == "ok" and tuple(out) != tuple(out2):
+            ctx.fail("api:differs-from-normalize_chunks", dict(case, got=repr(out), want=repr(out2)),
+                     f"da.{via}(shape, chunks=spec).chunks differs from normalize_chunks(spec, shape)")
+    else:
+        status, out = call_normalize(CU, spec, shape, case.get("limit"), case.get("dtype"), prev, case.get("config"),
+                                     timeout=3.0 if any(n >= HUGE_MIN for n in shape) else 20.0)
     res = validate(ctx, case, status, out)
+    if res in ("auto-fits", "auto-exempt") and case.get("history") is not None and not via and case.get("limit") is None:
+        # the limit comes from the configuration (or a byte string): passing the same limit explicitly is the same request
+        import dask
+
+        axes = expand(spec, shape)
+        with dask.config.set(case.get("config") or {}):
+            lim = eff_limit(None)
+            for a in axes:
+                if is_auto(a) and a != "auto":
+                    lim = parse_bytes(a)
+        st2, out2 = call_normalize(CU, spec, shape, lim, case.get("dtype"), prev,
+                                   dict(case.get("config") or {}, **{"array.chunk-size": "3B"}))
+        if st2 == "ok" and tuple(out2) != tuple(out):
+            ctx.fail("config:differs-from-explicit-limit", dict(case, got=repr(out), want=repr(out2), limit_in_force=lim),
+                     "normalize_chunks under a configured array.chunk-size differs from the same call with limit= that value")
+            res = "config:differs-from-explicit-limit"
     return status, out, res
 
 
-def mk_case(spec, shape, limit=None, dtype=None, prev=None, config=None):
-    return {"spec": enc(spec), "shape": list(shape), "limit": limit, "dtype": dtype, "prev": enc(prev), "config": config or {}}
+def mk_case(spec, shape, limit=None, dtype=None, prev=None, config=None, history=None, via=None):
+    c = {"spec": enc(spec), "shape": list(shape), "limit": limit, "dtype": dtype, "prev": enc(prev), "config": config or {}}
+    if history is not None:
+        c["history"] = history
+    if via:
+        c["via"] = via
+    return c
+
+
+# ------------------------------------------------------------------- huge (lazy) axes
+
+HUGE_MIN, HUGE_MAX = 2**53, 2**62
+
+
+def rand_huge_axis(rng):
+    """(n, c, k): HUGE_MIN <= n = k*c + r < HUGE_MAX with k <= 40 blocks of size c and r around a chunk edge."""
+    while True:
+        ce = rng.randint(47, 60)
+        c = rng.choice([2**ce, 2**ce, 2**ce + 1, 2**ce - 1, 3 * 2**(ce - 1), 10**(ce * 3 // 10), rng.randint(2**ce, 2**(ce + 1))])
+        k = rng.choice([1, 2, 3, 5, 7, 8, 16, 17, 31, 33, 40])
+        r = rng.choice([-2, -1, 0, 1, 1, 2, 3, rng.randint(0, c - 1), c // 2, c - 1])
+        n = k * c + r
+        if HUGE_MIN <= n < HUGE_MAX:
+            return n, c, k
+
+
+def rand_partition(rng, n, parts):
+    cuts = sorted(rng.randint(1, n - 1) for _ in range(parts - 1))
+    out = [b - a for a, b in zip([0] + cuts, cuts + [n])]
+    return tuple(x for x in out if x > 0) or (n,)
+
+
+def rand_huge_case(rng):
+    """Shapes mixing huge and small axes x every spec kind; auto limits sized so that the result stays short."""
+    r = rng.choice([1, 1, 2, 2, 3])
+    nh = rng.randint(1, min(r, 2))
+    pos = set(rng.sample(range(r), nh))
+    shape, specs, blocks = [], [], []
+    for i in range(r):
+        if i in pos:
+            n, c, k = rand_huge_axis(rng)
+            kind = rng.choice(["int", "int", "int", "full", "none", "tuple", "tuple-uniform", "auto", "auto"])
+            if kind == "int":
+                sp = c
+            elif kind == "full":
+                sp = -1
+            elif kind == "none":
+                sp = None
+            elif kind == "tuple":
+                sp = rand_partition(rng, n, rng.randint(1, 12))
+            elif kind == "tuple-uniform":
+                sp = brute_uniform(n, c)
+            else:
+                sp = "auto"
+            blocks.append((n + rng.choice([1, 2, 3, 4, 6]) - 1) // rng.choice([1, 2, 3, 4, 6]) if sp == "auto" else None)
+        else:
+            n = rng.choice([0, 1, 1, 2, 3, 5, 8, 13])
+            sp = rand_spec_axis(rng, n, kinds=("int", "full", "none", "tuple", "auto"))
+            blocks.append(max(1, n) if sp == "auto" else None)
+        shape.append(n)
+        specs.append(sp)
+    dtype = rng.choice(DTYPES)
+    limit, config, prev = None, {}, None
+    if any(sp == "auto" for sp in specs):
+        itemsize = np.dtype(dtype).itemsize
+        fixed = math.prod(max(1, (sp if isinstance(sp, int) and sp > 0 else n) if not isinstance(sp, tuple) else max(sp))
+                          for sp, n in zip(specs, shape) if sp != "auto")
+        lim = itemsize * fixed * math.prod(b for b in blocks if b is not None)
+        lim += rng.choice([0, 0, 1, -1, itemsize, rng.randint(0, lim // 1000 + 1)])
+        lim = max(1, lim)
+        src = rng.random()
+        if src < 0.4:
+            limit = lim
+        elif src < 0.7:
+            config["array.chunk-size"] = lim
+        else:  # a byte string in the spec (parse_bytes goes through a float: the value it returns is the limit)
+            bs = f"{lim}B"
+            specs = [bs if sp == "auto" else sp for sp in specs]
+        if rng.random() < 0.4:
+            prev = tuple(rand_partition(rng, n, rng.randint(1, 8)) if n >= HUGE_MIN else tuple(gen.rand_chunks(rng, n, maxparts=5)) for n in shape)
+    return mk_case(present(rng, specs, shape), shape, limit, dtype, prev, config)
 
 
 def kind_of(a):
@@ -368,8 +542,10 @@ def run(ctx, replay=None):
     if replay is not None:
         case = replay.get("case", replay)
         if "spec" in case:
-            case = {k: case.get(k) for k in ("spec", "shape", "limit", "dtype", "prev", "config")}
+            case = {k: case.get(k) for k in ("spec", "shape", "limit", "dtype", "prev", "config", "history", "via") if k in case or k not in ("history", "via")}
             status, out, res = run_case(ctx, CU, case)
+            if replay.get("case", replay).get("fresh_check") and status == "ok":
+                compare_with_fresh(ctx, [(case, out)])
             ctx.count(("replay", res))
             ctx.notes["replay_result"] = f"{status} {out!r} -> {res}"
         return
@@ -379,7 +555,9 @@ def run(ctx, replay=None):
         "correspondence: exhaustive small (axis ≤ N, every int/None/-1/tuple spec incl. 0, negatives, bad sums) + seeded "
         "random large, distinct by (family, model output prefix, size class); search: exhaustive rank ≤ 2 small shapes × "
         "every spec kind × limits + seeded random rank ≤ 4 with dtype/limit/config/previous_chunks, distinct by "
-        "(sorted per-axis spec kinds, rank, presentation, previous_chunks?, limit source, verdict class)"
+        "(sorted per-axis spec kinds, rank, presentation, previous_chunks?, limit source, verdict class); huge lazy axes "
+        "(2^53..2^62, n = k*c + r, k <= 40, r around the chunk edge) mixed with small axes x every spec kind, through "
+        "normalize_chunks and da.zeros/ones/empty/full; call histories (same arguments, 2-5 configurations, A..A)"
     )
     ctx.assumptions += [
         "byte-limit clause read as: itemsize·∏max(all axes) ≤ limit unless itemsize·∏max(non-auto axes) > limit "
@@ -430,6 +608,9 @@ def correspondence(ctx, CU, N, NR):
         if d // max(1, abs(bd)) > 5000:
             continue
         pairs.append((f"ck.blockdim {d} {bd}", one(d, bd)))
+    for _ in range(NR // 4):  # huge lazy axes around a chunk edge (exact integer arithmetic in the model)
+        d, bd, _k = rand_huge_axis(rng)
+        pairs.append((f"ck.blockdim {d} {bd}", one(d, bd)))
     ctx.correspond("blockdims_from_blockshape", pairs)
 
     # --- round_to on ints and on floats (floor / exactness are all the model sees)
@@ -467,6 +648,13 @@ def correspondence(ctx, CU, N, NR):
         n = rng.choice([0, 1, 5, 17, 100, 1000])
         c = rng.choice([None, -1, rng.randint(-3, n + 2), rng.randint(1, max(1, n)), tuple(gen.rand_chunks(rng, n, zeros=0.2, maxparts=8)),
                         tuple(gen.rand_chunks(rng, n + rng.choice([0, 0, 1]), maxparts=5))])
+        ai = rng.random() < 0.5 and not isinstance(c, tuple)
+        other = 1 if ai else (1,)
+        impl = impl_call(lambda: CU.normalize_chunks((c, other), (n, 1)), lambda r: "ok " + f_list(r[0]))
+        pairs.append((f"ck.norm_axis {int(ai)} {f_spec(c)} {n}", impl))
+    for _ in range(NR // 4):
+        n, c, _k = rand_huge_axis(rng)
+        c = rng.choice([c, c, -1, None, brute_uniform(n, c), rand_partition(rng, n, rng.randint(1, 9))])
         ai = rng.random() < 0.5 and not isinstance(c, tuple)
         other = 1 if ai else (1,)
         impl = impl_call(lambda: CU.normalize_chunks((c, other), (n, 1)), lambda r: "ok " + f_list(r[0]))
@@ -643,6 +831,60 @@ def search(ctx, CU):
             config["array.chunk-size"] = "2MiB"
         go(mk_case(present(rng, specs, shape), shape, limit, dtype, prev, config), "rnd")
 
+    tm = {"exhaustive+random": round(ctx.elapsed(), 1)}
+    # ---- huge lazy axes (no data is allocated by normalize_chunks or by the metadata of a creation function)
+    hangs = 0
+    for it in range(ctx.scale(6000, 80000)):
+        case = rand_huge_case(rng)
+        if hangs >= 2 and case["prev"] is not None:
+            # every hang costs the watchdog time: after two concrete ones stop drawing from that class in this run
+            ctx.notes["huge_prev_cases_skipped_after_two_hangs"] = ctx.notes.get("huge_prev_cases_skipped_after_two_hangs", 0) + 1
+            continue
+        hangs += go(case, "huge")[2] == "hang"
+        if it % 5 == 0 and case["limit"] is None and case["prev"] is None and case["dtype"] != "complex128" or it % 50 == 0:
+            if case["limit"] is None and case["prev"] is None:
+                go(dict(case, via=rng.choice(["zeros", "ones", "empty", "full"])), "huge-api")
+    for d, c in [(2**54 + 1, 2**50), (2**54, 2**50), (2**54 - 1, 2**50), (10**17 + 1, 10**16), (2**61 + 1, 2**60), (2**53 + 1, 2**53)]:
+        for spec, shape in ((c, (d,)), ({0: c}, (d,)), ((c, 1), (d, 3)), ({1: c}, (2, d))):
+            go(mk_case(spec, shape), "huge-edge")
+            go(mk_case(spec, shape, dtype="int8", via="zeros"), "huge-edge-api")
+
+    tm["huge"] = round(ctx.elapsed(), 1)
+    # ---- call histories: the same arguments under a sequence of configurations in this process
+    fresh_items = []
+    for it in range(ctx.scale(1500, 20000)):
+        r = rng.randint(1, 3)
+        shape = tuple(rng.choice([1, 2, 3, 5, 8, 9, 13, 40, 100, 1000, 4096]) for _ in range(r))
+        specs = [rand_spec_axis(rng, n, kinds=("int", "full", "none", "tuple", "auto", "auto", "auto")) for n in shape]
+        if not any(sp == "auto" for sp in specs):
+            specs[rng.randrange(r)] = "auto"
+        dtype = rng.choice(DTYPES)
+        nbytes = np.dtype(dtype).itemsize * math.prod(shape)
+        sizes = sorted({1, 8, 64, max(1, nbytes // 64), max(1, nbytes // 8), max(1, nbytes // 2), nbytes, 4 * nbytes})
+        prev = tuple(tuple(gen.rand_chunks(rng, n, maxparts=20)) for n in shape) if rng.random() < 0.5 else None
+        vary = rng.choice(["size", "size", "size", "tolerance", "both"]) if prev is not None else "size"
+        base = {"array.chunk-size": rng.choice(sizes)}
+        seq = []
+        for _ in range(rng.choice([2, 3, 3, 4])):
+            cfg = dict(base)
+            if vary in ("size", "both"):
+                v = rng.choice(sizes)
+                cfg["array.chunk-size"] = v if rng.random() < 0.6 else f"{v}B"
+            if vary in ("tolerance", "both"):
+                cfg["array.chunk-size-tolerance"] = rng.choice([1.0, 1.1, 1.25, 1.5, 2.0, 4.0])
+            seq.append(cfg)
+        if rng.random() < 0.5:
+            seq.append(dict(seq[0]))  # A, B, ..., A
+        spec = present(rng, specs, shape)
+        for i, cfg in enumerate(seq):
+            case = mk_case(spec, shape, None, dtype, prev, cfg, history=seq[:i])
+            status, out, res = go(case, "hist")
+            if i == len(seq) - 1 and status == "ok" and res in ("ok", "auto-fits", "auto-exempt"):
+                fresh_items.append((case, out))
+    compare_with_fresh(ctx, fresh_items)
+
+    tm["histories"] = round(ctx.elapsed(), 1)
+    ctx.notes["search_stream_elapsed"] = tm
     # ---- previous_chunks with zero-size chunks (known class auto:limit-exceeded:prev-zero-chunk lives here)
     for it in range(ctx.scale(2000, 40000)):
         r = rng.randint(1, 3)
@@ -734,6 +976,9 @@ def search(ctx, CU):
         mk_case(("auto", -1, "auto"), (13, 13, 1), 128, "float64", ((1, 2, 2, 3, 2, 2, 1), (2, 1, 1, 3, 2, 3, 1), (1, 0))),
         mk_case("auto", (854,) * 5, 854**5 - 1, "int8"),
         mk_case("auto", (8182,) * 4, 8182**4 - 1, "int8"),
+        # auto:hang:huge-previous_chunks (found by the huge-axis stream on the unchanged tree): the reduce loop of
+        # auto_chunks alternates between 3518267071406258 and ...259 forever (costs the 3 s watchdog while it fails)
+        mk_case("auto", (20971694341362582,), 56292273142500139, "complex128", ((10485847170681291, 10485847170681291),)),
     ]
     for c in probes:
         go(c, "probe")
